@@ -9,6 +9,7 @@ import (
 	"github.com/orda-io/orda/client/pkg/types"
 	"github.com/orda-io/orda/client/pkg/utils"
 	"reflect"
+	"sort"
 	"strconv"
 	"strings"
 )
@@ -417,8 +418,15 @@ func (its *jsonPrimitive) createJSONObject(parent jsonType, value interface{}, t
 
 	if target.Kind() == reflect.Map {
 		mapValue := value.(map[string]interface{})
-		for k, v := range mapValue {
-			val := reflect.ValueOf(v)
+		// children take their identifiers (delimiters) in creation order, which must be
+		// the same on every replica: do not depend on Go's map iteration order
+		keys := make([]string, 0, len(mapValue))
+		for k := range mapValue {
+			keys = append(keys, k)
+		}
+		sort.Strings(keys)
+		for _, k := range keys {
+			val := reflect.ValueOf(mapValue[k])
 			its.addValueToJSONObject(jo, k, val, ts)
 		}
 	} else { // reflect.Struct
